@@ -76,6 +76,8 @@ var ops = map[string]func(w *world) opResult{
 		}
 		return opResult{err, ""}
 	},
+	"Backlog":    func(w *world) opResult { return opResult{nil, ""} },
+	"PeerFaults": func(w *world) opResult { return opResult{nil, ""} },
 	"Kill": func(w *world) opResult {
 		ctx, c := context.WithTimeout(context.Background(), 8*time.Second)
 		defer c()
@@ -118,7 +120,11 @@ func runLifecycle(sc *Scenario, out *Out) {
 		"ahead": "queued behind the call's command"}[st.Stop])
 	// two connected peers, one complete piece, one reader blocked on a missing piece
 	var remotes []*remoteConn
-	for k := 0; k < 2; k++ {
+	npeers := 2
+	if st.Op == "Backlog" {
+		npeers = 12
+	}
+	for k := 0; k < npeers; k++ {
 		r, err := newRemote(w, k)
 		if err != nil {
 			out.Note = "NewPeer: " + err.Error()
@@ -142,7 +148,49 @@ func runLifecycle(sc *Scenario, out *Out) {
 		}
 		return
 	}
-	if ps, _ := w.t.GetPeers(); len(ps) != 2 {
+	if st.Op == "PeerFaults" {
+		// connections whose writes fail from the start, and connections closed at once by the remote
+		for k := 0; k < 60; k++ {
+			a, b := net.Pipe()
+			if k%2 == 0 {
+				b.Close()
+			} else {
+				a = failConn{a}
+				go func() { time.Sleep(time.Duration(k%5) * 100 * time.Microsecond); b.Close() }()
+			}
+			id := make([]byte, 20)
+			id[0], id[1] = 0x55, byte(k)
+			w.t.NewPeer("", a, netip.MustParseAddrPort(fmt.Sprintf("192.0.2.%d:%d", 100+k%100, 8000+k)), false,
+				protocol.HandshakeResult{Hash: w.t.Hash, Id: hash.Hash(id), Fast: true, Extended: true, Dht: true}, nil)
+		}
+		// all of them must be gone, and the torrent must keep answering
+		gone := false
+		for n := 0; n < 250 && !gone; n++ {
+			got := make(chan int, 1)
+			go func() {
+				ps, err := w.t.GetPeers()
+				if err != nil {
+					got <- -1
+				} else {
+					got <- len(ps)
+				}
+			}()
+			select {
+			case n := <-got:
+				gone = n == 2
+			case <-time.After(8 * time.Second):
+				w.viol("C17", "call-hang:GetPeers", "GetPeers did not return within 8 s after peers whose connections fail at set-up were added")
+				return
+			}
+			time.Sleep(20 * time.Millisecond)
+		}
+		if !gone {
+			ps, _ := w.t.GetPeers()
+			w.viol("C17", "zombie-peer", fmt.Sprintf("%d peers whose connections failed during set-up are still registered 5 s later (their goroutines have returned without signalling their exit)", len(ps)-2))
+			return
+		}
+	}
+	if ps, _ := w.t.GetPeers(); len(ps) != npeers {
 		out.Note = fmt.Sprintf("set-up: %d peers", len(ps))
 		return
 	}
@@ -156,21 +204,6 @@ func runLifecycle(sc *Scenario, out *Out) {
 	}
 	opDone := make(chan opResult, 1)
 	call := func() { go func() { opDone <- op(w) }() }
-	waitQueued := func(before int) bool {
-		for deadline := time.Now().Add(10 * time.Second); time.Now().Before(deadline); {
-			if len(w.t.Event) > before {
-				return true
-			}
-			select {
-			case r := <-opDone:
-				opDone <- r
-				return true
-			default:
-			}
-			time.Sleep(20 * time.Microsecond)
-		}
-		return false
-	}
 	var extra *remoteConn
 	switch st.Stop {
 	case "dead":
@@ -188,26 +221,32 @@ func runLifecycle(sc *Scenario, out *Out) {
 		if !w.park() {
 			return
 		}
-		n := len(w.t.Event)
-		kill()
-		if !waitQueued(n) {
-			out.Note = "GoAway never queued"
-			return
+		// the loop is parked: the deletion command goes in first, the call's command behind it
+		w.t.Event <- peer.TorGoAway{}
+		if st.Op == "Backlog" {
+			// ... and the rest of the queue is filled up
+			for full := false; !full; {
+				select {
+				case w.t.Event <- peer.TorAddKnown{Addr: netip.MustParseAddrPort("192.0.2.250:9"), Kind: known.Tracker}:
+				default:
+					full = true
+				}
+			}
 		}
-		n = len(w.t.Event)
 		call()
-		waitQueued(n)
+		time.Sleep(2 * time.Millisecond)
 		w.releaseAllNoWait()
+		kill()
 	case "ahead":
 		w.pushGates()
 		if !w.park() {
 			return
 		}
-		n := len(w.t.Event)
 		call()
-		waitQueued(n)
-		kill()
+		time.Sleep(2 * time.Millisecond)
+		w.t.Event <- peer.TorGoAway{}
 		w.releaseAllNoWait()
+		kill()
 	}
 	_ = extra
 	// C17: the call returns
@@ -286,4 +325,11 @@ func runLifecycle(sc *Scenario, out *Out) {
 		w.viol("C16", "unchoke-counter", fmt.Sprintf("NumUnchoking() = %d with no peer left", peer.NumUnchoking()))
 	}
 	out.Applied = 1
+}
+
+// failConn is a connection whose writes fail.
+type failConn struct{ net.Conn }
+
+func (c failConn) Write(p []byte) (int, error) {
+	return 0, errors.New("write: connection reset by peer")
 }
